@@ -76,12 +76,16 @@ func buildC10(id string, fk fieldKind, mask int, level string, skip bool, sig up
 	sc := &Scenario{ID: "U" + id, PropGen: "C10", PropVal: "C10", Test: "Convert", Funcs: map[string]string{},
 		Desc: map[string]any{"class": fmt.Sprintf("field=%s skip=%v sig=%s", fk.name, skip, sig.name), "zero_mask": mask, "level": level, "override_no": overrideNo}}
 	sd := &space.Decl{Pkg: "in", Name: "S" + id, Under: space.St(f("F", fk.src(u)), f("G", tInt))}
-	td := &space.Decl{Pkg: "out", Name: "T" + id, Under: space.St(f("F", fk.tgt(u)), f("G", tInt), f("Keep", tStr))}
+	td := &space.Decl{Pkg: "out", Name: "T" + id, Under: space.St(f("F", fk.tgt(u)), f("G", tInt), f("Stamp", tInt), f("Keep", tStr), f("Last", tInt))}
 	sc.Decls = []*space.Decl{sd, td}
 	conv := &model.Converter{OutPkg: "conv/generated", LitPkg: "conv"}
 	sc.Conv = conv
 	var eff model.Settings
-	mlines := []string{"update target", "ignore Keep"}
+	stampFn := "Stamp" + id
+	sc.FuncsSrc = fmt.Sprintf("func %s() int { return 4711 }\nfunc Last%s(s int) int { return s + 5 }\n", stampFn, id)
+	sc.Funcs[stampFn] = "conv." + stampFn
+	sc.Funcs["Last"+id] = "conv.Last" + id
+	mlines := []string{"update target", "ignore Keep", "map Stamp | " + stampFn, "map G Last | Last" + id}
 	lines := zeroLines(mask)
 	switch level {
 	case "method":
@@ -136,8 +140,10 @@ func buildC10(id string, fk fieldKind, mask int, level string, skip bool, sig up
 	if sig.err {
 		result = "error"
 	}
-	top := &model.Method{Name: "Convert", Src: srcT, Dst: tT, Set: eff, Fields: map[string]*model.FieldCfg{"Keep": {Ignore: true}},
-		NFieldSettings: 1, Update: true, HasErr: sig.err, CtxTypes: ctxTypes}
+	top := &model.Method{Name: "Convert", Src: srcT, Dst: tT, Set: eff, Fields: map[string]*model.FieldCfg{"Keep": {Ignore: true},
+		"Stamp": {Fn: &model.Custom{Name: stampFn, Dst: tInt, ArgsFmt: []string{}}},
+		"Last":  {Source: "G", Fn: &model.Custom{Name: "Last" + id, Src: tInt, Dst: tInt, ArgsFmt: []string{"src"}}}},
+		NFieldSettings: 3, Update: true, HasErr: sig.err, CtxTypes: ctxTypes}
 	// zero-value settings written on the method count as field settings too, which only matters for overlap checks
 	conv.Methods = []*model.Method{top}
 	sc.Methods = []*ScMethod{{Name: "Convert", Params: strings.Join(params, ", "), Result: result, Lines: mlines, M: top}}
